@@ -1,5 +1,5 @@
 (* C09 — encoding never silently corrupts a value (bit-level and decision-rule statements). *)
-From NV Require Import Base Bits Defn PyNum Fields Dispatch Template TemplateEnc Encode Spec SpecProofs EncodeProofs.
+From NV Require Import Base Bits Defn PyNum Fields Dispatch Template TemplateEnc Encode Spec SpecProofs EncodeProofs RangeProofs.
 
 (* a number whose rounded quotient lies outside the representable interval (top code reserved for
    "not available"; negative for unsigned) is rejected: an accepted one is inside, and is stored in
@@ -48,3 +48,76 @@ Example C09_example :
   encode_num (PI 65535) 16 false (PI 1) = Err ERange /\ encode_num (PI (-1)) 16 false (PI 1) = Err ERange /\
   encode_num (PI 65534) 16 false (PI 1) = Ok 65534 /\ encode_num (PI 32767) 16 true (PI 1) = Err ERange.
 Proof. vm_compute. auto. Qed.
+
+(* ---- half a resolution step (IEEE-754; proofs in RangeProofs.v) ----
+   "a value that is accepted is encoded to the raw value nearest to value/resolution, so that decoding
+   it again gives the value back to within half a resolution step": whenever encode_number accepts a
+   number, the raw value n it writes — the one the decoder's sign extension reads back, never the
+   not-available pattern — satisfies |n*res - value| <= |res|/2 + 2^-53 |value|. The second term is the
+   one rounding of the double quotient value/res (ties to even included; a quotient in the subnormal
+   range needs no extra hypothesis: it rounds to n = 0 and |value| < 2^-1022 |res|).
+   enc_okb (boolean, RangeProofs.v): any float value or an int value below 2^53; any finite float
+   resolution or a non-zero int resolution below 2^53. pyR x is the real number x denotes. *)
+From Coq Require Import Reals Floats.
+From Flocq Require Import Core BinarySingleNaN IEEE754.PrimFloat.
+From NV Require Import PyNum.   (* again, so that PI is the Python int constructor, not the real number pi *)
+
+Theorem C09_half_step : forall (v res : pynum) (len : Z) (signed : bool) (z : Z),
+  (1 <= len)%Z -> (signed = true -> (4 <= len)%Z) ->
+  enc_okb v res = true ->
+  encode_num v len signed res = Ok z ->
+  exists n, rounded_quotient v res = Ok n /\ sign_extend signed len z = n /\
+    not_available signed len n = false /\
+    (Rabs (IZR n * pyR res - pyR v) <= Rabs (pyR res) / 2 + bpow radix2 (-53) * Rabs (pyR v))%R.
+Proof. exact encode_half_step. Qed.
+Print Assumptions C09_half_step.
+
+(* integer value and integer resolution k, in integers. Python divides in doubles: a quotient just
+   below a half-integer can round up to it and then to the even neighbour, so the bound is k + 1 in
+   general (attained: k = 2^26 + 1, v = k*k + 2^25, below) and exactly k when |v| < 2^52 *)
+Theorem C09_half_step_int : forall (x k len : Z) (signed : bool) (z : Z),
+  (1 <= len)%Z -> (signed = true -> (4 <= len)%Z) ->
+  (1 <= k < 2 ^ 53)%Z -> (Z.abs x < 2 ^ 53)%Z ->
+  encode_num (PI x) len signed (PI k) = Ok z ->
+  exists n, rounded_quotient (PI x) (PI k) = Ok n /\ sign_extend signed len z = n /\
+    (2 * Z.abs (n * k - x) <= k + 1)%Z /\
+    ((Z.abs x < 2 ^ 52)%Z -> (2 * Z.abs (n * k - x) <= k)%Z).
+Proof. exact encode_int_half_step. Qed.
+Print Assumptions C09_half_step_int.
+
+(* decoding again: for a float resolution and a field of at most 53 bits, the scaled value w = fl(n*r)
+   the decoder computes from the written raw value is within |r|/2 + 2^-53 |value| + 2^-53 |n*r| of
+   the encoded value *)
+Theorem C09_decodes_back_close : forall (v : pynum) (r : PrimFloat.float) (len : Z) (signed : bool) (z : Z),
+  (1 <= len <= 53)%Z -> (signed = true -> (4 <= len)%Z) ->
+  enc_okb v (PF r) = true -> NV.FloatRT.res_ok r = true ->
+  encode_num v len signed (PF r) = Ok z ->
+  exists n w, sign_extend signed len z = n /\ not_available signed len n = false /\
+    py_mul_int n (PF r) = Ok (PF w) /\ is_finite (Prim2B w) = true /\
+    (Rabs (B2R (Prim2B w) - pyR v) <=
+       Rabs (B2R (Prim2B r)) / 2 + bpow radix2 (-53) * Rabs (pyR v)
+       + bpow radix2 (-53) * Rabs (IZR n * B2R (Prim2B r)))%R.
+Proof. exact encode_then_decode_close. Qed.
+Print Assumptions C09_decodes_back_close.
+
+(* non-vacuity: 6553.2 at resolution 0.1 into a 16-bit unsigned field is accepted as 65532, and the
+   half-step inequality holds of these numbers (checked exactly on mantissas and exponents:
+   2 |65532 * r - v| <= r); int and float values against int and float resolutions; the integer
+   example where 2 |n*k - v| = k + 1 *)
+Example C09_half_step_example :
+  let r := 0x1.999999999999ap-4%float in let v := 0x1.9993333333333p+12%float in
+  (enc_okb (PF v) (PF r) = true /\ encode_num (PF v) 16 false (PF r) = Ok 65532 /\
+   rounded_quotient (PF v) (PF r) = Ok 65532 /\
+   match float_me r, float_me v with
+   | Some (mr, er), Some (mv, ev) =>
+       let d := me_add ((65532 * mr)%Z, er) ((- mv)%Z, ev) in
+       me_le ((2 * Z.abs (fst d))%Z, snd d) (mr, er)
+   | _, _ => false
+   end = true) /\
+  (enc_okb (PI 6553) (PF r) = true /\ encode_num (PI 6553) 16 false (PF r) = Ok 65530 /\
+   enc_okb (PF v) (PI 5) = true /\ encode_num (PF v) 16 false (PI 5) = Ok 1311 /\
+   encode_num (PI (-52)) 16 true (PI 5) = Ok (65536 - 10)) /\
+  (let k := (2 ^ 26 + 1)%Z in let x := (k * k + 2 ^ 25)%Z in
+   (Z.abs x <? 2 ^ 53)%Z = true /\ rounded_quotient (PI x) (PI k) = Ok (k + 1)%Z /\
+   (2 * Z.abs ((k + 1) * k - x) = k + 1)%Z).
+Proof. vm_compute. repeat split. Qed.
